@@ -493,6 +493,24 @@ func (in *Interp) prepareCall(fr *frame, call *ssa.CallCommon) (fn Value, args [
 				return
 			}
 		}
+		if nv, ok := recv.V.(Native); ok {
+			if de, isDE := nv.V.(fakeDirEntry); isDE {
+				name := call.Method.Name()
+				fn = &NativeFn{Name: "os.DirEntry." + name, F: func(fr *frame, args []Value) Value {
+					switch name {
+					case "IsDir":
+						return mkBool(de.dir)
+					case "Name":
+						return mkStr(de.name)
+					}
+					panic(engineErr("UNSUPPORTED os.DirEntry method " + name))
+				}}
+				for _, a := range call.Args {
+					args = append(args, fr.get(a))
+				}
+				return
+			}
+		}
 		if rt, ok := recv.V.(RT); ok {
 			// reflect.Type method
 			name := call.Method.Name()
